@@ -529,9 +529,12 @@ impl Value {
     ) -> Result<Value, EvalError> {
         let left_res: Result<f64, EvalError> = self.try_into();
         let right_res: Result<f64, EvalError> = right.try_into();
+        // `num(date)` is its epoch milliseconds, but arithmetic on dates is what the typed arms of
+        // + and - define: two dates cannot be added, a date cannot be scaled
+        let dates = matches!(self, Value::DateTime(_)) || matches!(right, Value::DateTime(_));
 
         match (left_res, right_res) {
-            (Ok(lf1), Ok(rf1)) => Ok(Value::from_float(op_fn(lf1, rf1))),
+            (Ok(lf1), Ok(rf1)) if !dates => Ok(Value::from_float(op_fn(lf1, rf1))),
             _ => Err(EvalError::ExpectedNumericOperands {
                 left: format!("{}", self),
                 op,
@@ -555,6 +558,7 @@ impl TryFrom<&Value> for f64 {
             Value::Int(i) => Ok(*i as f64),
             Value::Float(f) => Ok(f.0),
             Value::Str(s) => Value::aggressively_to_num(s),
+            Value::DateTime(dt) => Ok(dt.timestamp_millis() as f64),
             _ => Err(EvalError::ExpectedNumber {
                 found: format!("{}", value),
             }),
